@@ -26,6 +26,7 @@ type FuncClaim struct {
 	Name   string   `json:"name"`
 	Skip   []string `json:"skip,omitempty"`   // obligation-name substrings not claimed (reason in Note)
 	Only   []string `json:"only,omitempty"`   // if set: only obligation names containing one of these
+	Sweep  bool     `json:"sweep,omitempty"`  // zero-annotation safety sweep: no contract needed
 	Replay string   `json:"replay,omitempty"` // in-package test that replays a model (VERIF_INPUT)
 	Search string   `json:"search,omitempty"` // in-package test that searches a small scope for a failing input
 	Note   string   `json:"note,omitempty"`
@@ -231,7 +232,7 @@ func cmdCheck(args []string) int {
 			continue
 		}
 		vc := newFnVC(w, fn, "full")
-		if vc.ct == nil {
+		if vc.ct == nil && !fc.Sweep {
 			run.shapeMismatch(fc, qn, "no contract bound")
 			continue
 		}
@@ -240,7 +241,7 @@ func cmdCheck(args []string) int {
 			continue
 		}
 		// every contracted loop must exist
-		for n := range vc.ct.Loops {
+		for n := range contractLoops(vc.ct) {
 			if n > len(vc.loops) {
 				run.shapeMismatch(fc, qn, fmt.Sprintf("contract names loop %d but the function has %d loops", n, len(vc.loops)))
 			}
@@ -261,7 +262,7 @@ func cmdCheck(args []string) int {
 			}
 			obls = append(obls, o)
 		}
-		if vc.ct.Trusted {
+		if vc.ct != nil && vc.ct.Trusted {
 			run.trusted["contract of "+qn+" is marked trusted"] = true
 		}
 	}
@@ -356,6 +357,13 @@ func cmdCheck(args []string) int {
 		run.runBounded(b)
 	}
 	return run.finish(start)
+}
+
+func contractLoops(ct *FuncContract) map[int]*LoopContract {
+	if ct == nil {
+		return nil
+	}
+	return ct.Loops
 }
 
 func claimed(fc FuncClaim, o *Obligation) bool {
